@@ -31,12 +31,18 @@ subprocess.run(["git", "-C", "/repo", "worktree", "remove", "--force", wt], capt
 subprocess.run(["git", "-C", "/repo", "worktree", "add", "-q", "--detach", wt, BASE], check=True)
 L = f"/tmp/confirm/{ID}{SUFFIX}-{N}"
 r = {}
+CM = "cmake -G Ninja -S . -B _build -DCMAKE_BUILD_TYPE=RelWithDebInfo -DCMAKE_CXX_FLAGS=-Wno-error >/dev/null && cmake --build _build -j6"
+needs_lib = "_build" in build        # demos that link the cmake-built library need it built first (clean, then patched)
+if needs_lib:
+    sh(CM, wt, L + ".cm0.log")
 r["demo_build_clean"] = sh(build, wt, L + ".cb.log")
 r["demo_clean_rc"] = sh(run, wt, L + ".cr.log", 600)
 r["applies"] = subprocess.run(["git", "apply", os.path.join(dst, "patch.diff")], cwd=wt).returncode
+if needs_lib:
+    sh(CM, wt, L + ".cm1.log")
 r["demo_build_patched"] = sh(build, wt, L + ".pb.log")
 r["demo_patched_rc"] = sh(run, wt, L + ".pr.log", 600)
-r["cmake"] = sh("cmake -G Ninja -S . -B _build -DCMAKE_BUILD_TYPE=RelWithDebInfo -DCMAKE_CXX_FLAGS=-Wno-error && cmake --build _build -j6", wt, L + ".cm.log")
+r["cmake"] = sh(CM, wt, L + ".cm.log")
 r["ctest"] = sh("ctest --test-dir _build -j8 --timeout 900", wt, L + ".ct.log")
 r["tests_passed"] = open(L + ".ct.log").read().count("Passed")
 subprocess.run(["git", "-C", "/repo", "worktree", "remove", "--force", wt], capture_output=True)
